@@ -12,10 +12,10 @@ from common import *
 
 ID = 'C03'
 COQ_FILES = ['Model/Distance.v', 'Proofs/DistanceBase.v', 'Proofs/DistanceFloyd.v', 'Proofs/DistanceBin.v',
-             'Proofs/DistanceOther.v', 'Proofs/DistanceReach.v', 'Properties/C03.v']
+             'Proofs/DistanceOther.v', 'Proofs/DistanceReach.v', 'Proofs/DistanceWei.v', 'Properties/C03.v']
 THEOREMS = ['C03_floyd_correct', 'C03_floyd_diag_zero', 'C03_floyd_reach_iff_finite', 'C03_floyd_hops_min_path',
             'C03_floyd_transforms', 'C03_distance_bin_correct', 'C03_distance_bin_diag_zero', 'C03_distance_bin_inf_iff',
-            'C03_agree_floyd_bin', 'C03_agree_any', 'C03_distance_wei_partial', 'C03_distance_wei_diag_zero',
+            'C03_agree_floyd_bin', 'C03_agree_any', 'C03_distance_wei_correct', 'C03_agree_wei_floyd', 'C03_distance_wei_diag_zero',
             'C03_breadthdist_partial', 'C03_breadthdist_reach_flag',
             'C03_reachdist_partial', 'C03_reachdist_flag_partial', 'C03_offdiag_pairs', 'C03_charpath_mean', 'C03_charpath_mean_inverse',
             'C03_efficiency_bin_mean_inverse', 'C03_efficiency_wei_mean_inverse', 'C03_rout_efficiency_mean_inverse']
